@@ -43,7 +43,7 @@ pub fn dump_logs(args: &[String], seed: u64) -> i32 {
     let census: Vec<Census> = census_recs
         .iter()
         .map(|r| match r {
-            Some(r) if r.status == "ran" => Census { class: r.outcome.clone(), reason: r.detail.clone(), n_decisions: r.decisions.len() },
+            Some(r) if r.status == "ran" => Census::from_record(r),
             _ => Census::default(),
         })
         .collect();
@@ -166,6 +166,7 @@ pub fn scan(args: &[String]) -> i32 {
             rec_states: false,
             deep: false,
             want_inv: false,
+            classify: false,
         })
         .collect();
     let cfg = PoolConfig { workers: 16, chunk: if op == Op::IsEuclidean { 64 } else { 1 }, run_budget: Duration::from_secs(budget), deadline: None, thorough: false };
